@@ -413,3 +413,57 @@ def scratch_copy_bound_rule(rule, c, wrappers):
                                    "the scratch array `%s` holds %s entries but this loop transfers `%s` of them: the rest of the caller's integer matrix "
                                    "keeps its old contents" % (p, cnt.strip(), bound.strip()), cnt.strip(), bound.strip())
     return n
+
+
+# --------------------------------------------------------------------------------------
+_LD_FIXTURE = "static void k(int *ldA, int *ldB, int_t *A, int_t *B, int_t *C) { C[0] += ((int_t *)A)[i+l*(*ldA)]*((int_t *)B)[l+j*(*ldA)]; }"
+
+
+def _ld_subscripts(text, names):
+    """[(array, ld name, position)] for subscripts `X[ .. ldY .. ]` (through casts) with ldY a name of the function"""
+    out = []
+    for m in re.finditer(r"(?:\(\s*\(\s*[\w ]+\*\s*\)\s*(\w+)\s*\)|\b(\w+))\s*\[", text):
+        X = m.group(1) or m.group(2)
+        j, d = m.end(), 1
+        while j < len(text) and d:
+            if text[j] == "[":
+                d += 1
+            elif text[j] == "]":
+                d -= 1
+            j += 1
+        sub = text[m.end():j - 1]
+        for l in re.finditer(r"\bld(\w+)\b", sub):
+            if "ld" + l.group(1) in names:
+                out.append((X, l.group(1), m.start()))
+    return out
+
+
+def ld_subscript_rule(rule, cs, files):
+    """A leading dimension belongs to its array: a subscript `X[i + j*ldY]` with Y != X (and ldX a
+    name of the same function) reads X with another array's column stride.  The kernels of the
+    repaired tree index with m / k directly, so the rule carries its own positive example."""
+    n = 1
+    fx = _ld_subscripts(_LD_FIXTURE, {"ldA", "ldB"})
+    if [(x, y) for x, y, _ in fx if x != y] == [("B", "A")]:
+        rule.ok("self-test:fires on the embedded example `B[l+j*(*ldA)]`", "sa/cmisc_rules.py")
+    else:
+        rule.undecided("self-test:fires on the embedded example", "sa/cmisc_rules.py", "positive example no longer recognised")
+    for f in files:
+        c = cs[f]
+        for fn in c.order:
+            t = _ftext(c, fn)
+            names = set(re.findall(r"\bld\w+\b", t))
+            if not names:
+                continue
+            for X, Y, pos in _ld_subscripts(t, names):
+                if "ld" + X not in names:
+                    continue
+                n += 1
+                key = "%s:%s:%s[..] uses ld%s" % (f, fn, X, Y)
+                where = "src/C/%s:%s:%d" % (f, fn, _line(c, fn, t, pos))
+                if X == Y:
+                    rule.ok(key, where)
+                else:
+                    rule.violation(key, where, "`%s` is subscripted with the leading dimension of `%s`: for ld%s != ld%s the wrong elements are addressed"
+                                   % (X, Y, X, Y), "ld%s" % X, "ld%s" % Y)
+    return n
